@@ -347,7 +347,7 @@ func fieldCall(info *types.Info, call *ast.CallExpr) (string, ast.Expr) {
 }
 
 type famSel struct {
-	nilGuard, validate, gate, noTrace, hookAdd, hookDel, hookFlush, mergeTotal, delGate, delIdem, keyAgree, replacedOrig bool
+	nilGuard, validate, gate, noTrace, hookAdd, hookDel, hookFlush, mergeTotal, delGate, delIdem, keyAgree, replacedOrig, heldOnly bool
 }
 
 // ribFamily analyses the five Add and five Delete methods and the helpers.
@@ -605,7 +605,7 @@ func analyseAdd(c *Ctx, k *Kind, helpers map[*types.Func]*helperInfo, sel famSel
 		return
 	}
 	pos := c.P.pos(fi.Decl.Pos())
-	vNil, vVal, vGate, vTrace, vHook, vOrig := newVerdicts(), newVerdicts(), newVerdicts(), newVerdicts(), newVerdicts(), newVerdicts()
+	vNil, vVal, vGate, vTrace, vHook, vOrig, vHeld := newVerdicts(), newVerdicts(), newVerdicts(), newVerdicts(), newVerdicts(), newVerdicts(), newVerdicts()
 	nInstallPaths, nOrigFromRetrieve := 0, 0
 	for _, p := range paths {
 		if p.End == "panic" {
@@ -618,6 +618,12 @@ func analyseAdd(c *Ctx, k *Kind, helpers map[*types.Func]*helperInfo, sel famSel
 				vOrig.touch("replaced original read before the install")
 				ro := objOfIdent(info, rs.Results[1])
 				ii := idx(p, "install")
+				if isNilIdent(info, rs.Results[1]) {
+					ro = nil
+					if !p.has("retrieve") {
+						continue // nothing was installed under the key: there is no original
+					}
+				}
 				if ro == nil {
 					vOrig.fail("replaced original read before the install", "a success path hands back "+types.ExprString(rs.Results[1])+" as the replaced entry instead of what was retrieved before the install: "+p.describe(c.P))
 				}
@@ -685,6 +691,25 @@ func analyseAdd(c *Ctx, k *Kind, helpers map[*types.Func]*helperInfo, sel famSel
 				}
 			}
 		}
+		// "not done, no error" is the answer that parks the operation as held: it may only be given where the
+		// resolvability gate said "not yet" — any other path that returns it (an "already installed, nothing
+		// to do" shortcut, say) parks an operation for ever although nothing it refers to is missing
+		if val, isB := firstResultBool(info, p); isB && !val && sel.heldOnly {
+			if rs, ok := p.EndNode.(*ast.ReturnStmt); ok && len(rs.Results) == 3 && isNilIdent(info, rs.Results[2]) {
+				vHeld.touch("not-done-without-error only where the gate said not yet")
+				chk := lastIdx(p, "check")
+				okNo := false
+				if chk >= 0 {
+					cdh := p.Events[chk].Data.(*addEvData)
+					if cdh.ok != nil && factsAfter(info, p, chk, len(p.Events)).Obj(cdh.ok) == -1 {
+						okNo = true
+					}
+				}
+				if !okNo {
+					vHeld.fail("not-done-without-error only where the gate said not yet", "returns (false, …, nil) on a path where the resolvability check did not answer \"not yet\": the caller holds the operation as unresolved and it is never answered: "+p.describe(c.P))
+				}
+			}
+		}
 		// R1.3 failures leave no trace / success implies install
 		if val, isB := firstResultBool(info, p); isB {
 			if val {
@@ -749,6 +774,9 @@ func analyseAdd(c *Ctx, k *Kind, helpers map[*types.Func]*helperInfo, sel famSel
 	if sel.hookAdd {
 		vHook.emit(c, "NOTIFY", fi.Name, pos, map[string]string{"notify after install": "postChangeHook(Add, ts, holder name, new entry) after the install on success paths"})
 	}
+	if sel.heldOnly {
+		vHeld.emit(c, "HELD-ONLY-UNRESOLVED", fi.Name, pos, map[string]string{"not-done-without-error only where the gate said not yet": "(false, _, nil) is returned only after checkFn answered (false, nil)"})
+	}
 	if sel.replacedOrig {
 		if nOrigFromRetrieve == 0 {
 			vOrig.fail("replaced original read before the install", "no success path hands back an entry retrieved from the table before the install: a replace never releases the references of the entry it replaced")
@@ -801,7 +829,7 @@ func checkHookArgs(c *Ctx, fi *FuncInfo, hd *addEvData, wantOp string, recv type
 	if hd.op != wantOp {
 		return fmt.Sprintf("postChangeHook announces operation %q, want constants.%s", hd.op, wantOp)
 	}
-	obj, path := selectorPath(info, hd.args[2])
+	obj, path := aliasedSelectorPath(info, fi.Decl, hd.args[2])
 	if obj == nil || obj != recv || len(path) != 1 || path[0] != "name" {
 		return "postChangeHook is not tagged with the holder's own network-instance name (" + types.ExprString(hd.args[2]) + ")"
 	}
@@ -1135,13 +1163,22 @@ func ruleLocklessHooks(c *Ctx, ks []*Kind) {
 			default:
 				hd := p.Events[hi].Data.(*addEvData)
 				if msg := checkHookArgs(c, fi, hd, "Delete", recv, func(e ast.Expr) bool {
-					// the removed entry: a local defined as <table>[key] with the deleted key
+					// the removed entry: a local defined as <table>[key] with the deleted key (possibly handed on
+					// through the parameter of a helper that was spliced in)
 					o := objOfIdent(info, e)
 					v, ok := o.(*types.Var)
 					if !ok {
 						return false
 					}
 					def := soleDefinition(info, fi.Decl, v)
+					for hops := 0; hops < 4 && def != nil; hops++ {
+						v2, isVar := objOfIdent(info, def).(*types.Var)
+						if !isVar || v2.IsField() {
+							break
+						}
+						v = v2
+						def = soleDefinition(info, fi.Decl, v)
+					}
 					ie, ok := ast.Unparen(def).(*ast.IndexExpr)
 					if !ok {
 						return false
@@ -1156,4 +1193,26 @@ func ruleLocklessHooks(c *Ctx, ks []*Kind) {
 			"postChangeHook(Delete, ts, holder name, removed entry) after the delete", bad)
 	}
 	c.floor(rule, "flush-path removal helpers", n, 5)
+}
+
+// aliasedSelectorPath: selectorPath, with a root that is a local bound once to another selector
+// chain (x := y.z, or the parameter/receiver binding of a spliced-in helper) replaced by that chain.
+func aliasedSelectorPath(info *types.Info, fd *ast.FuncDecl, e ast.Expr) (types.Object, []string) {
+	obj, path := selectorPath(info, e)
+	for hops := 0; hops < 4 && obj != nil; hops++ {
+		v, ok := obj.(*types.Var)
+		if !ok || v.IsField() {
+			break
+		}
+		def := soleDefinition(info, fd, v)
+		if def == nil {
+			break
+		}
+		o2, p2 := selectorPath(info, def)
+		if o2 == nil || o2 == obj {
+			break
+		}
+		obj, path = o2, append(append([]string{}, p2...), path...)
+	}
+	return obj, path
 }
